@@ -41,13 +41,16 @@ def main():
     confirmed = res.get('patch_applies') and res.get('demo_without_change_rc') == 0 and res.get('demo_with_change_rc', 0) != 0 and ' passed' in res.get('test_suite', '') and 'failed' not in res.get('test_suite', '')
     res['confirmed'] = bool(confirmed)
     if confirmed:
-        assert sh('git -C /repo status --porcelain').stdout.strip() == '', '/repo not clean'
+        # the checks run against a scratch worktree of /repo carrying the patch (VERIF_REPO), never against /repo itself
+        sr = '/tmp/seed_eval_repo'
+        sh(f'git -C /repo worktree remove --force {sr}; rm -rf {sr}')
+        assert sh(f'git -C /repo worktree add -q {sr} HEAD').returncode == 0
         try:
-            assert sh(f'git -C /repo apply {patch}').returncode == 0
+            assert sh(f'git -C {sr} apply {patch}').returncode == 0
             res['checks'] = {}
             for c in checks:
                 t0 = time.time()
-                r = sh(f'cd {VERIF} && timeout 2400 /venv/bin/python tools/check.py {c} --tier quick')
+                r = sh(f'cd {VERIF} && VERIF_REPO={sr} timeout 2400 /venv/bin/python tools/check.py {c} --tier quick')
                 lines = [l for l in r.stdout.split('\n') if l.startswith('VIOLATION') or l.startswith('[')]
                 res['checks'][c] = {'rc': r.returncode, 'lines': lines, 'wall_s': round(time.time() - t0, 1)}
                 for l in lines:
@@ -58,7 +61,7 @@ def main():
                         except Exception:  # noqa
                             pass
         finally:
-            sh('git -C /repo checkout -- .')
+            sh(f'git -C /repo worktree remove --force {sr}; rm -rf {sr}')
         d = os.path.join(VERIF, 'seeded', name)
         os.makedirs(d, exist_ok=True)
         shutil.copy(patch, os.path.join(d, 'patch.diff'))
